@@ -48,7 +48,9 @@ pub const INFO: Info = Info {
            (estimator k+1's first query is bit-for-bit estimator k's last), interleave (the same score asked of A,B,(C),A,B,…), \
            twin (the same sample fitted twice, another in between, a rebuild in the middle), sweep-then-sweep (control). \
            kdepool: one estimator (100 / 1000 bins) built inside pools of 1,2,3,4,8 threads. psmpepseq: score_psms on \
-           tables A,B / A,B,A / C,C in one single-threaded pool",
+           tables A,B / A,B,A / C,C in one single-threaded pool. large-class (kde): 33k/3k, 40k/40k, 10k/70k targets/decoys \
+           (thorough: also 32768/32769, 100k/20k, …) at 100 bins. psm-ranked: 1-3 ranked PSMs per spectrum (rank, delta_next, \
+           delta_best, psm_id, spec_id as the search sets them), half of the tables with every decoy at rank >= 2",
     serial: false,
 };
 
@@ -357,6 +359,34 @@ pub fn gen(rng: &mut Rng, tier: Tier, emit: &mut dyn FnMut(Case)) {
             }
             emit_case(c, shape, emit);
         }
+    }
+
+    // ---- LARGE classes (a per-class size threshold in the density code: e.g. sub-sampling the kernel sum above
+    // 32,768 scores while the normalising constant keeps the full n); 100 bins keep O(n·bins) small
+    let large: &[(usize, usize)] = if quick {
+        &[(33_000, 3_000), (40_000, 40_000), (10_000, 70_000)]
+    } else {
+        &[(33_000, 3_000), (40_000, 40_000), (10_000, 70_000), (3_000, 33_000), (32_768, 32_769), (32_769, 500), (100_000, 20_000), (66_000, 66_000)]
+    };
+    for (k, &(nt, nd)) in large.iter().enumerate() {
+        let mut scores = Vec::with_capacity(nt + nd);
+        let mut decoys = Vec::with_capacity(nt + nd);
+        for _ in 0..nd {
+            scores.push(gauss(rng));
+            decoys.push(true);
+        }
+        for _ in 0..nt {
+            let s = if rng.chance(1, 3) { gauss(rng) } else { 2.5 + 1.5 * gauss(rng) };
+            scores.push(s);
+            decoys.push(false);
+        }
+        let mut ix: Vec<usize> = (0..scores.len()).collect();
+        rng.shuffle(&mut ix);
+        let scores: Vec<f64> = ix.iter().map(|&i| scores[i]).collect();
+        let decoys: Vec<bool> = ix.iter().map(|&i| decoys[i]).collect();
+        let sw = sweep(rng, &scores, 100, 20);
+        let c = KdeCase { scores, decoys, bins: 100, bw: 1.0, mono: k % 3 != 1, sweep: sw };
+        emit_case(c, "large-class", emit);
     }
 
     // ---- directed: the known defect (a class with zero score variance) — small separate stream
@@ -752,6 +782,57 @@ fn gen_psm(rng: &mut Rng, tier: Tier, emit: &mut dyn FnMut(Case)) {
             emit(Case::new(psm_request(kind, lo, hi, &feats)).tag(shape));
         }
     }
+    // ---- report_psms > 1: several ranked PSMs per spectrum. The PEP model is fitted to ALL reported PSMs, whatever
+    // their rank (the driver refits from every reported (score, label) pair)
+    let reps = if quick { 4 } else { 40 };
+    for rep in 0..reps {
+        let low_decoys = rep % 2 == 1; // every decoy at rank >= 2: rank 1 holds targets only
+        let spectra = 80 + rng.below(if quick { 200 } else { 900 });
+        let mut groups: Vec<Vec<Feature>> = Vec::new();
+        for _ in 0..spectra {
+            let k = 1 + rng.below(3);
+            let mut g = Vec::new();
+            let mut q1 = 0.0;
+            for r in 0..k {
+                let (decoy, q) = if r == 0 {
+                    if !low_decoys && rng.chance(1, 3) {
+                        (true, gauss(rng))
+                    } else if rng.chance(1, 3) {
+                        (false, gauss(rng))
+                    } else {
+                        (false, 3.0 + gauss(rng))
+                    }
+                } else {
+                    // lower ranks are random matches, half of them decoys, never better than rank 1
+                    let q = (gauss(rng) - 0.5).min(q1 - 0.1);
+                    (rng.chance(1, 2), q)
+                };
+                if r == 0 {
+                    q1 = q;
+                }
+                let mut f = psm(rng, decoy, q);
+                f.rank = r as u32 + 1;
+                f.delta_best = ((q1 - q) * 5.0).max(0.0);
+                g.push(f);
+            }
+            // delta_next: distance to the next-ranked candidate
+            for r in 0..g.len() {
+                let next = if r + 1 < g.len() { g[r + 1].hyperscore } else { 0.0 };
+                g[r].delta_next = (g[r].hyperscore - next).max(0.0);
+            }
+            groups.push(g);
+        }
+        rng.shuffle(&mut groups);
+        let feats: Vec<Feature> = groups.into_iter().flatten().collect();
+        let tag = if low_decoys { "psm-ranked-decoys-at-rank>=2" } else { "psm-ranked" };
+        let single = psm_request(0, -10.0, 10.0, &feats);
+        if rep % 4 >= 2 {
+            // the same table twice in one request (psmpepseq), else a single call
+            emit(Case::new(format!("psmpepseq 2{}{}", &single["psmpep".len()..], &single["psmpep".len()..])).tag(tag));
+        } else {
+            emit(Case::new(single).tag(tag));
+        }
+    }
     // ---- degenerate PSM tables: what `score_psms` does before/instead of fitting the PEP model
     let reps = if quick { 2 } else { 10 };
     for rep in 0..reps {
@@ -843,6 +924,17 @@ fn exec_psmpep_one(t: &mut Toks, fixed: Option<&'static rayon::ThreadPool>) -> O
         f.posterior_error = 1.0;
         Some(f)
     })?;
+    // ids as the search assigns them: PSMs arrive spectrum by spectrum (a new spectrum starts at each rank-1
+    // PSM), every PSM has its own psm_id
+    let mut spectrum = 0usize;
+    for (i, f) in feats.iter_mut().enumerate() {
+        if f.rank <= 1 {
+            spectrum += 1;
+        }
+        f.psm_id = i + 1;
+        f.spec_id = format!("controllerType=0 controllerNumber=1 scan={}", spectrum);
+        f.scored_candidates = 50 + (spectrum as u32 % 200);
+    }
     let tol = if kind == 0 { Tolerance::Ppm(lo, hi) } else { Tolerance::Da(lo, hi) };
     let fit = fixed.unwrap_or_else(|| pool(feats.len())).install(|| score_psms(&mut feats, tol)).is_some();
     let mut o = Out::new();
